@@ -96,6 +96,13 @@ def composite(pid, tier, t0, parts):
         divs += d
     if cov["states"] == 0:
         cov["states"] = cov["transitions"] = 1
+    # the evidence carries the level the manifest claims for the property (a composite claimed as "exploration" stays one
+    # even if one of its parts is a model-checked replay)
+    try:
+        import manifest_gen
+        level = manifest_gen.CHECKS[pid][0]
+    except Exception:
+        pass
     return finish(pid, tier, level, cov, assumptions, t0, divs)
 
 
